@@ -2,6 +2,9 @@ package c11
 
 import (
 	"context"
+
+	gojson "github.com/goccy/go-json"
+
 	stdjson "encoding/json"
 	"errors"
 	"fmt"
@@ -89,6 +92,28 @@ func (u *TU) UnmarshalText(b []byte) error {
 	}
 	u.Got = string(b)
 	return nil
+}
+
+// CtxFwd is a context-aware marshaler that forwards the context it was given (and with it the sub
+// query go-json attached for this member) to a nested encoding.
+type CtxFwd struct {
+	P int
+	Q string
+	R []int
+}
+
+type ctxFwdAlias CtxFwd
+
+func (c CtxFwd) MarshalJSON(ctx context.Context) ([]byte, error) {
+	return gojson.MarshalContext(ctx, ctxFwdAlias(c))
+}
+
+type Plain9 struct {
+	A int
+	M CtxFwd
+	B string
+	N Inner
+	L []CtxFwd
 }
 
 type Inner struct {
@@ -195,9 +220,10 @@ var typeTable = map[string]reflect.Type{
 	"Plain1": reflect.TypeOf(Plain1{}), "Plain2": reflect.TypeOf(Plain2{}), "Plain3": reflect.TypeOf(Plain3{}), "Plain4": reflect.TypeOf(Plain4{}),
 	"Plain5": reflect.TypeOf(Plain5{}), "Plain6": reflect.TypeOf(Plain6{}), "Plain7": reflect.TypeOf(Plain7{}), "Plain8": reflect.TypeOf(Plain8{}),
 	"map": reflect.TypeOf(map[string]interface{}{}), "slice": reflect.TypeOf([]interface{}{}), "iface": reflect.TypeOf((*interface{})(nil)).Elem(),
+	"Plain9": reflect.TypeOf(Plain9{}), "UFail": reflect.TypeOf(UFail{}), "TU": reflect.TypeOf(TU{}), "CtxU": reflect.TypeOf(CtxU{}),
 	"ints": reflect.TypeOf([]int{}), "strmap": reflect.TypeOf(map[string]string{}), "CtxM": reflect.TypeOf(CtxM{}), "Fail": reflect.TypeOf(Fail{}),
 }
 
-var encTypes = []string{"Node", "Holder", "Wide", "Emb", "Plain1", "Plain2", "Plain3", "Plain4", "Plain5", "Plain6", "Plain7", "Plain8", "map", "slice", "ints", "strmap", "CtxM"}
+var encTypes = []string{"Node", "Holder", "Wide", "Emb", "Plain9", "Plain9", "Plain1", "Plain2", "Plain3", "Plain4", "Plain5", "Plain6", "Plain7", "Plain8", "map", "slice", "ints", "strmap", "CtxM"}
 var decTypes = []string{"Node", "Dec", "Wide", "Emb", "Plain1", "Plain2", "Plain3", "Plain4", "Plain5", "Plain6", "Plain8", "map", "slice", "iface", "ints", "strmap"}
-var queryTypes = []string{"Plain1", "Plain2", "Plain4", "Plain7", "Holder", "Wide"}
+var queryTypes = []string{"Plain1", "Plain2", "Plain4", "Plain7", "Holder", "Wide", "Plain9", "Plain9", "Plain9"}
